@@ -36,7 +36,7 @@ with an equal Revision, an equal StrictTestament3 text, and byte-identical file 
 the inventory records; nothing the repository held changed; the returned revision is the target; merging
 the target into a checkout from the bundle (Merger.from_mergeable) and from the branch gives identical
 working trees, conflicts and pending merges; a bundle with one byte changed either raises or installs
-exactly the original revisions; from_lines(to_lines(d)) == d field by field on the documented domain (no
+exactly the original revisions (read in a forked child with a time limit); a truncated v4 bundle raises; from_lines(to_lines(d)) == d field by field on the documented domain (no
 patch line starting with `# Begin bundle`; a patch that is followed by a bundle ends with a newline;
 integral time); MergeDirective2.from_objects directives install their target with the testament sha1 they
 name and their patch verifies; a patch mutation outside {space, CR, LF} is never reported as verified.
@@ -51,6 +51,7 @@ _verify_patch regenerates the diff against the wrong base.  Equivalent / harmles
 final text flush of RevisionInstaller (file records never end a bundle), list-concatenation rewrite of
 to_lines, filter() rewrite of the ghost stripping.  install_bundle without its has_revision skip makes the
 real code loop for ever: the per-scenario alarm turns that into an infrastructure failure (exit 2).
+Fix-reverted runs (each a plain VIOLATION): b80d98c (parse_patch_date sign), 8f646b8 (incomplete bz2 stream).
 """
 import hashlib
 import os
